@@ -17,7 +17,6 @@ def run(chk):
     r14g(chk)
     r14a(chk)
     r14b(chk)
-    r14c(chk)
     r14d(chk)
     r14h(chk)
     r14i(chk)
@@ -136,94 +135,6 @@ def r14b(chk, rid='R14.b'):
     # the three tables are reduced together
     tables = {t for d in dels for t in ('_profilesProperties', '_rawProfiles', '_profileNames') if f'self.{t}[' in text(d.stmt)}
     chk.ob(rid, P, 'Profiles.removeProfile', 'compiled table, raw table and name list are reduced together', tables == {'_profilesProperties', '_rawProfiles', '_profileNames'}, str(sorted(tables)))
-
-
-def r14c(chk, rid='R14.c'):
-    chk.rule(rid, 'derived macro environment: every branch of a mutator that removes raw profiles also recomputes _usedMacros (by _resetProperties when the removed profile had macros, or by resetting to the built-in macros), so that a later profile cannot use macros of a profile that is gone (what _resetProperties and addProfile compute is decided by evaluation in R14.h)')
-    fn = chk.repo.fn(P, 'Profiles.removeProfile')
-    m = chk.repo.mod(P)
-    allb = [n for n in fn.body if isinstance(n, ast.If) and text(n.test) == 'all']
-    if len(allb) != 1:
-        raise AnalysisError('removeProfile: `if all:` not found')
-    eff = Effects.get(chk.repo)
-    if not hasattr(eff, 'writes'):
-        eff.compute_writes(scratch={'_readonly', '_log'})
-
-    def branch_writes(stmts):
-        w = set()
-        for st in stmts:
-            for x in ast.walk(st):
-                if isinstance(x, (ast.Assign, ast.AugAssign, ast.Delete)):
-                    for t in (x.targets if not isinstance(x, ast.AugAssign) else [x.target]):
-                        a = eff.self_attr(t)
-                        if a:
-                            w.add(a)
-                if isinstance(x, ast.Call) and isinstance(x.func, ast.Attribute):
-                    a = eff.self_attr(x.func.value)
-                    if a and x.func.attr in eff.SELF_MUTATORS:
-                        w.add(a)
-                    if isinstance(x.func.value, ast.Name) and x.func.value.id == 'self':
-                        for c in eff.resolve_call(P, 'Profiles.removeProfile', x):
-                            w |= eff.writes.get(c, set())
-        return w
-
-    wall_ = branch_writes(allb[0].body)
-    clears = '_rawProfiles' in wall_
-    resets = '_usedMacros' in wall_
-    chk.ob(rid, P, 'Profiles.removeProfile', 'removing all profiles resets the macro environment', clears and resets,
-           'the macros of the removed profiles stay usable: add a profile with macro foo, remove all, add a profile that uses {foo} without defining it - accepted, while a fresh registry raises KeyError')
-    # the re-expansion must depend on nothing but "the removed profile had macros"
-    resets = [c for c in ast.walk(allb[0].orelse[0] if allb[0].orelse else fn) if False]
-    ctrl = []
-    for n in ast.walk(ast.Module(body=allb[0].orelse, type_ignores=[])):
-        if isinstance(n, ast.If) and any(isinstance(c, ast.Call) and call_name(c) == 'self._resetProperties' for s2 in n.body for c in ast.walk(s2)):
-            ctrl.append(n)
-    if len(ctrl) != 1:
-        raise AnalysisError(f'removeProfile: {len(ctrl)} conditional calls of _resetProperties (one expected)')
-    HAD = "self._rawProfiles[profile]['macros']"
-
-    def verdict(cond):
-        """True: exactly "the removed profile had macros"; False: narrower; None: not recognised."""
-        while isinstance(cond, ast.Call) and call_name(cond) == 'bool' and len(cond.args) == 1:
-            cond = cond.args[0]
-        if text(cond) == HAD:
-            return True
-        if isinstance(cond, ast.Name):
-            # a local holding the macros of the removed profile, or a flag
-            binds = [x for x in ast.walk(fn) if isinstance(x, ast.Assign) and text(x.targets[0]) == cond.id]
-            vs = []
-            for x in binds:
-                if isinstance(x.value, ast.Constant) and x.value.value is False:
-                    continue
-                if isinstance(x.value, ast.Constant) and x.value.value is True:
-                    par = m.parents.get(x)
-                    if not (isinstance(par, ast.If) and x in par.body):
-                        return None
-                    vs.append(verdict(par.test))
-                else:
-                    vs.append(verdict(x.value))
-            if not vs or any(v is None for v in vs):
-                return None
-            return all(vs)
-        if isinstance(cond, ast.BoolOp) and isinstance(cond.op, ast.And) and any(verdict(v) for v in cond.values):
-            return False  # a further condition
-        return None
-
-    okc = verdict(ctrl[0].test)
-    if okc is None:
-        chk.ob(rid, P, 'Profiles.removeProfile', 'condition of the re-expansion is in a recognised form', False, f'`{text(ctrl[0].test)}`', shape=True)
-        okc = True
-    chk.ob(rid, P, 'Profiles.removeProfile', 'the rest is re-expanded whenever the removed profile had macros (no further condition)', okc,
-           'macros of the removed profile that shadow a macro of another profile stay compiled into the remaining patterns: add + remove does not restore the verdicts')
-    # derived state is recomputed, never patched
-    for q, f in m.functions():
-        if not q.startswith('Profiles.'):
-            continue
-        for c in ast.walk(f):
-            if isinstance(c, ast.Call) and isinstance(c.func, ast.Attribute) and text(c.func.value) == 'self._usedMacros' and c.func.attr in ('pop', 'clear', 'popitem', '__delitem__'):
-                chk.ob(rid, P, q, f'`{text(c)[:60]}`', False, 'the macro environment is derived state: removing single entries cannot restore a macro that the removed one was shadowing - it has to be recomputed from the raw profiles')
-            if isinstance(c, ast.Delete) and any('self._usedMacros' in text(t) for t in c.targets):
-                chk.ob(rid, P, q, f'`{text(c)[:60]}`', False, 'the macro environment is derived state and must be recomputed, not patched')
 
 
 def r14d(chk, rid='R14.d'):
